@@ -555,3 +555,21 @@ func execRootDS(f []string) vlib.Res {
 func genRootDS(r *vlib.R) string {
 	return fmt.Sprintf("rootds check on=%s keys=%d pds=%d zone=%s", vlib.B(r.Chance(4, 5)), vlib.Pick(r, []int{0, 1, 1, 2}), vlib.Pick(r, []int{0, 0, 1, 2}), vlib.Pick(r, []string{".", ".", "test", "zone.test"}))
 }
+
+// proofname check <qname> <isDS>      insecureProofName of the resolver (e583743)
+func execProofName(f []string) vlib.Res {
+	qt := dns.TypeA
+	if f[3] == "t" {
+		qt = dns.TypeDS
+	}
+	got := nameTok(resolver.VerifC01InsecureProofName(dns.Question{Name: tokName(f[2]), Qtype: qt, Qclass: 1}))
+	ls := tokLabels(f[2])
+	or := "ok"
+	if f[3] == "t" && len(ls) > 0 && len(tokLabels(got)) != len(ls)-1 {
+		or = fail("proofname/ds-question-excused-by-its-own-owner", "%s -> %s", f[2], got)
+	}
+	if f[3] != "t" && got != f[2] {
+		or = fail("proofname/changed-for-non-ds", "%s -> %s", f[2], got)
+	}
+	return vlib.Res{Impl: got, Oracle: or}
+}
